@@ -232,7 +232,7 @@ pub fn run(o: &DriveOpts, out: &mut dyn Write, tid: usize) -> Value {
                         // the label rotates from life to life (every life of a vertex uses at most N labels, but a re-used id
                         // sees more than N different ones over its lives)
                         let idx = (a.bytes().next().unwrap_or(b'a') - b'a') as usize;
-                        c["a"] = json!(labels[(idx + r) % labels.len()]);
+                        c["a"] = json!(labels[(idx + r + r / 4 + r / 7) % labels.len()]);
                     }
                     if c.get("d").is_some() {
                         c["d"] = json!(datas[(si + r) % datas.len()]);
